@@ -184,9 +184,47 @@ def write_multifile(directory):
     return os.path.join(directory, "root.json")
 
 
+_PRELOADED = False
+
+
+def preload():
+    """Import every module of the product and of this harness before the first run.
+
+    Hypothesis draws "interesting constants" from the source of all LOCAL modules (anything outside site-packages)
+    that are imported at the moment of a draw. Here the product is an editable install and the harness lives next to
+    it, so both count as local, and a module imported lazily in the middle of a run (by another thread, or by the
+    first run only) would change what is drawn afterwards. With a regular installation the product is not local and
+    this cannot happen; importing everything up front gives the same stable situation."""
+    global _PRELOADED
+    if _PRELOADED:
+        return
+    import importlib
+    import pkgutil
+
+    import schemathesis
+    import vmon
+
+    for package in (schemathesis, vmon):
+        for info in pkgutil.walk_packages(package.__path__, package.__name__ + "."):
+            if ".props.c" in info.name and not info.name.endswith(".c13"):
+                continue
+            try:
+                importlib.import_module(info.name)
+            except Exception:
+                pass
+    for extra in ("schemathesis.cli", "schemathesis.cli.commands.run.executor", "schemathesis.specs.openapi.stateful", "schemathesis.specs.graphql.schemas"):
+        try:
+            importlib.import_module(extra)
+        except Exception:
+            pass
+    _PRELOADED = True
+
+
 def one_run(group, workers=1, jitter_seed=None, seed_override=None):
     """Execute one engine run; returns the normalised observation."""
     import tempfile
+
+    preload()
 
     from vmon.instr import engine
 
